@@ -3,6 +3,7 @@ package wire
 import (
 	"fmt"
 	"io"
+	"sort"
 	"testing"
 
 	"pgregory.net/rapid"
@@ -462,4 +463,82 @@ func runHistoryForged(hist []uint64, forged map[int]uint64) error {
 		}
 	}
 	return nil
+}
+
+// TestC07LongLink: the window holds for as long as the link lives. One reader accepts a long run of frames
+// (timestamps rising by a few ticks each) and at generated points - right after the 255th, 256th, 257th, 65535th,
+// 65536th, 65537th, 131072nd ... accepted frame and at random places - a recorded frame far older than the newest
+// arrives: it must be refused every time, and the run goes on undisturbed.
+func TestC07LongLink(t *testing.T) {
+	rec := evid.New(t, "C07", "one keyed reader, 70,000 (quick) / 140,000 (thorough) correctly signed frames with rising timestamps and stale probes (newest - window - 1..1000 ticks) after exactly 1, 2, 255, 256, 257, 65535, 65536, 65537 (131071, 131072, 131073) accepted frames and at 30 generated places; every decision must equal the window model; non-trivial = a probe after more than 65536 accepted frames; distinct by hash of the probe positions")
+	rec.Require("stale-frame-after-more-than-65536-accepted-frames")
+	total := evid.N(70000, 140000)
+	evid.Check(t, rec, evid.N(1, 3), func(t *rapid.T) {
+		readBufSize = 512
+		probes := map[int]bool{1: true, 2: true, 255: true, 256: true, 257: true, 65535: true, 65536: true, 65537: true, 131071: true, 131072: true, 131073: true}
+		for k := 0; k < 30; k++ {
+			probes[rapid.IntRange(1, total-1).Draw(t, "probe_after")] = true
+		}
+		ts := uint64(rapid.Uint64Range(5000000, 1<<40).Draw(t, "ts0"))
+		var stream []byte
+		var hist []uint64
+		var lens []int
+		var m windowModel
+		var want []bool
+		add := func(x uint64, seq byte) {
+			b := signedAt(x, seq)
+			stream = append(stream, b...)
+			lens = append(lens, len(b))
+			hist = append(hist, x)
+			want = append(want, m.step(x))
+		}
+		accepted, deep := 0, false
+		for accepted < total {
+			ts += uint64(1 + accepted%5)
+			add(ts, byte(accepted))
+			accepted++
+			if probes[accepted] {
+				add(ts-windowTicks-uint64(1+accepted%1000), byte(accepted+7))
+				if accepted > 65536 {
+					deep = true
+				}
+			}
+		}
+		res, terr, herr := readAll(&chunkReader{data: stream, failAt: -1}, nil, keyOf(&c07Key), len(hist)+2)
+		if herr != nil || terr != io.EOF || len(res) != len(hist) {
+			t.Fatalf("reading %d frames: %d results, %v / %v", len(hist), len(res), herr, terr)
+		}
+		acc := 0
+		for i, r := range res {
+			if got := r.err == nil; got != want[i] {
+				verdict := map[bool]string{true: "accepted", false: "refused"}
+				msg := fmt.Sprintf("frame %d of the link (timestamp %d, after %d accepted frames, newest accepted %d): %s (err=%v), must be %s", i, hist[i], acc, hist[maxInt(i-1, 0)], verdict[got], r.err, verdict[want[i]])
+				evid.ReplayNote("C07", "TestC07LongLink", msg)
+				t.Fatalf("%s", msg)
+			}
+			if want[i] {
+				acc++
+			}
+		}
+		var cls []string
+		if deep {
+			cls = append(cls, "stale-frame-after-more-than-65536-accepted-frames")
+		}
+		var pb []byte
+		for p := range probes {
+			pb = append(pb, byte(p), byte(p>>8), byte(p>>16))
+		}
+		sort.Slice(pb, func(i, j int) bool { return pb[i] < pb[j] })
+		rec.Case(deep, evid.Hash(pb), cls...)
+		if rec.WantSample("long-link") {
+			rec.Sample("long-link", map[string]interface{}{"frames": len(hist), "probes": len(probes)})
+		}
+	})
+}
+
+func maxInt(a, b int) int {
+	if a > b {
+		return a
+	}
+	return b
 }
